@@ -789,6 +789,7 @@ class ImplSpec:
         self.assumes = {}
         self.only = None
         self.header_rewrites = []
+        self.nested = {}
 
 
 def apply_contract(sig, clauses, ret="r"):
@@ -905,6 +906,35 @@ def process_fn(fn, spec, handle, stats, canary):
     for (expr, why) in spec.assumes.get(name, []):
         e2 = replace_self(expr) if (by_value and not handle) else expr
         body = "\n    assume(%s); // ASSUMPTION: %s" % (e2, why) + body
+    if handle and re.search(r"\bimpl\s+Observer\s*<", body):
+        # R7 inside a handle impl: task functions receive the shared slot handle, so their
+        # `impl Observer` parameter is the handle form of the trait (terminals take `&mut self`)
+        body = re.sub(r"\bimpl\s+Observer\s*<", "impl HObserver<", body)
+        body = re.sub(r"(?<![\w])(?<!mut )(\b\w+)(\s*:\s*impl HObserver<)", r"mut \1\2", body)
+        stats["R7"] += 1
+    # contracts of fn items nested in the body (task functions handed to a scheduler)
+    for nname, ncl in spec.nested.get(name, {}).items():
+        nm_ = re.search(r"\bfn\s+%s\b" % re.escape(nname), body)
+        if not nm_:
+            raise ExtractError("nested fn %s not found in %s" % (nname, name))
+        j_ = nm_.end()
+        pd_ = 0
+        while j_ < len(body):
+            ch_ = body[j_]
+            if ch_ in "([":
+                pd_ += 1
+            elif ch_ in ")]":
+                pd_ -= 1
+            elif ch_ == "{" and pd_ == 0:
+                break
+            j_ += 1
+        nsig = body[nm_.start():j_]
+        e_ = match_close(body, j_)
+        nbody = body[j_ + 1:e_]
+        nsig2, nbody2 = normalize_params(nsig, nbody, stats)
+        nsig2, ntext = apply_contract(nsig2, ncl, "r")
+        body = body[:nm_.start()] + nsig2 + "\n" + ntext + "\n{" + nbody2 + "}" + body[e_ + 1:]
+        stats["added_lines"] += len(ncl)
     sig, body = normalize_params(sig, body, stats, byref=getattr(spec, "byref", False))
     # `mut x: T` parameters: Verus wants the binding immutable in the signature
     # loop invariants
@@ -1281,6 +1311,9 @@ def generate(template_path, variant, canary=False):
                     for x in t[2:]:
                         if x.startswith("ret="):
                             spec.ret[t[1]] = x[4:]
+                elif t[0] == "@@nested":
+                    buf, i = collect(i + 1)
+                    spec.nested.setdefault(t[1], {})[t[2]] = [b for b in buf if b.strip()]
                 elif t[0] == "@@loop":
                     buf, i = collect(i + 1)
                     spec.loops.setdefault(t[1], {})[int(t[2])] = [b for b in buf if b.strip()]
